@@ -69,12 +69,23 @@ def _check_writer(lines, a, header_value, md_texts, sig):
     return prove('tsv:cells', and_(*claims), **sig)
 
 
-def h_roundtrip(nr, nc, idk, with_md):
+VALUE_MENU = [1e-05, 2.5e+16, -3e-300, 0.1, 123456789.125, 1e+22, 5.0, -0.0078125]
+
+
+def h_roundtrip(nr, nc, idk, with_md, concrete_values=False):
     b = B()
     oids, sids = ID_MENUS[idk]
     oids, sids = oids[:nr], sids[:nc]
     omd = [{'taxonomy': TAXA[k % len(TAXA)], 'other': k} for k in range(nr)] if with_md else None
-    t, a = make_table(nr, nc, zeros=1, obs_ids=oids, samp_ids=sids, md='none')
+    if concrete_values:
+        # facet "shortest-repr text incl. exponent notation": values from a concrete menu (plain enumeration, no solver)
+        import numpy as np
+        dense = [[VALUE_MENU[choice(len(VALUE_MENU), f'value{i}{j}')] for j in range(nc)] for i in range(nr)]
+        t = b.Table(np.array(dense, dtype=float), list(oids), list(sids))
+        a = ATM(oids, sids, dense)
+        a.info = {'layout': 'csr', 'unsorted': False, 'explicit_zero': False, 'history': 'none'}
+    else:
+        t, a = make_table(nr, nc, zeros=1, obs_ids=oids, samp_ids=sids, md='none')
     if omd:
         t.add_metadata({i: m for i, m in zip(oids, omd)}, axis='observation')
         a.obs_md = [dict(m) for m in omd]
@@ -248,6 +259,9 @@ def jobs(tier):
                 out.append(('roundtrip', (nr, nc, idk, md)))
         for md in (False, True):
             out.append(('parser_symbolic_ids', (nr, nc, md)))
+        if nr * nc <= 2:
+            out.append(('roundtrip', (nr, nc, 'plain', False, True)))
+            out.append(('roundtrip', (nr, nc, 'plain', True, True)))
     out.append(('convert_cli', (2, 2)))
     if tier != 'quick':
         out.append(('convert_cli', (3, 2)))
